@@ -405,33 +405,37 @@ def engine_limitation(s, sh: G.Shape) -> Optional[str]:
 
 
 def make_case(rng, tier, stream="main"):
-    """stream: 'main' (supported shapes) | 'defect' (having shapes the engine is known to reject)"""
+    """stream: 'main' | 'defect' (the shape the engine is known to fail on: min/max over an operand without measures and without
+    grouping identifier).  Half of the having clauses of the main stream are 'free' (operands with several measures, conditions
+    over other components than the aggregated ones, and/or with no identifier left): shapes the engine rejected before its
+    having fix; `limitation` keeps their label so that a regression gets a specific key."""
     for _ in range(30):
         form = rng.choice(["agg", "agg", "clause", "clause", "clause"])
-        want_having = rng.random() < (0.4 if stream == "main" else 1.0)
+        want_having = stream == "main" and rng.random() < 0.4
+        free = want_having and rng.random() < 0.5
+        andor_noid = free and rng.random() < 0.2
+        minmax_nomeasure = stream == "defect"
         first_op = rng.choice(list(OPS))
         if first_op in NUM_OPS or rng.random() < 0.4:
             mtypes = ["Integer", "Number"]
         else:
             mtypes = list(G.BASIC)
         nm = None
-        andor_noid = stream == "defect" and rng.random() < 0.3
-        minmax_nomeasure = stream == "defect" and not andor_noid and rng.random() < 0.2
         if andor_noid:
             nm = 1
-        elif stream == "defect":
+        elif free:
             nm = rng.choice([2, 3])
         elif want_having and form == "agg":
             nm = 1
         d = gen_dataset(rng, tier, mtypes, nm)
-        if (stream == "main" and rng.random() < 0.04) or minmax_nomeasure:
+        if (stream == "main" and not want_having and rng.random() < 0.04) or minmax_nomeasure:
             d["shape"] = G.Shape(d["shape"].ids, [])       # no measures: count / min / max only
             d["rows"] = [(k, []) for k, _ in d["rows"]]
         dss = {"DS_1": d}
         structs, dps = G.inputs_engine(dss)
         stmts: List[Tuple[str, Dict[str, Any]]] = []
         src, sh = "DS_1", d["shape"]
-        chain = stream == "main" and rng.random() < 0.18
+        chain = stream == "main" and not free and rng.random() < 0.18
         if chain:
             kind = rng.choice(["filter", "agg", "clause"])
             if kind == "filter" and sh.ms:
@@ -464,7 +468,7 @@ def make_case(rng, tier, stream="main"):
             s = {"kind": "agg", "op": rng.choice(["min", "max"]), "src": src,
                  "grouping": rng.choice([["none", []], ["except", ids_all]]), "having": None}
         else:
-            s = gen_main(rng, src, sh, form, want_having, defect=(stream == "defect" and not andor_noid) or None)
+            s = gen_main(rng, src, sh, form, want_having, defect=(free and not andor_noid) or None)
         if s is None:
             continue
         if andor_noid and not s.get("having"):
@@ -476,7 +480,7 @@ def make_case(rng, tier, stream="main"):
                 if s["having"][3][0] == "bin" and s["having"][3][1] in ("and", "or"):
                     s["having"][3] = s["having"][3][2]
         lim = engine_limitation(s, sh)
-        if stream == "main" and lim is not None:
+        if stream == "main" and lim is not None and lim.startswith("min-max"):
             continue
         if stream == "defect" and lim is None:
             continue
@@ -958,7 +962,7 @@ def run_k(ctx, n_main, n_defect, tag="c03"):
     ctx.log("K: model evaluated; waiting for the engine runs")
     engine_results = runs.get()
     ctx.log("K: comparing")
-    hist: Dict[str, Dict[str, int]] = {k: {} for k in ("operators", "forms", "grouping", "having", "group_sizes", "input_rows",
+    hist: Dict[str, Dict[str, int]] = {k: {} for k in ("operators", "forms", "grouping", "having", "having_shape", "group_sizes", "input_rows",
                                                        "measure_types", "engine_errors", "result_datapoints")}
 
     def note(h, k, n=1):
@@ -972,7 +976,9 @@ def run_k(ctx, n_main, n_defect, tag="c03"):
         for o in _ops_of(s):
             note("operators", o)
         note("forms", ("standalone" if s["kind"] == "agg" else "clause") + ("+chain" if len(c["stmts"]) > 1 else "") +
-             (":defect-stream" if c["stream"] == "defect" else ""))
+             (":known-defect-stream" if c["stream"] == "defect" else ""))
+        if s.get("having"):
+            note("having_shape", (c.get("limitation") or "one-measure operand, condition on the aggregated component").replace("having:", ""))
         note("grouping", grouping_label(s["grouping"], [n for n, _ in c["src_shape"].ids]))
         h = s.get("having")
         note("having", "none" if not h else (h[1] if h[0] == "bin" and h[1] in ("and", "or") else "atom"))
@@ -1023,7 +1029,7 @@ def run_k(ctx, n_main, n_defect, tag="c03"):
             ctx.oblige("K: Model/Aggr.v agrees with the engine wherever the engine satisfies the reference predicate", False, what)
         ctx.violation(key, what, {"case": case_json(c), "disagreement": d, "reference_verdict": verdict}, found_input=engine_bad)
     ctx.cov["distribution"] = {k: dict(sorted(v.items(), key=lambda x: -x[1])) for k, v in hist.items()}
-    ctx.cov["distribution"].update({"corpus": n_corpus, "generated_main": n_main, "generated_defect_stream": n_defect,
+    ctx.cov["distribution"].update({"corpus": n_corpus, "generated_main": n_main, "generated_known_defect_stream": n_defect,
                                     "double_valued_comparisons": stats})
     ctx.cov["disagreements"] = dis
     return dis
